@@ -270,8 +270,12 @@ class UserBoard(StreamBoard):
             if self.cores[ci].lines['irq'] or self.cores[ci].lines['fiq']:
                 self.cores[ci].lines['irq'] = self.cores[ci].lines['fiq'] = False
             self.count('probe.forced-return-to-user')
-        self.user_pre = priv_snapshot(arm, self.case.get('privonly', ()))
         return super().step_core(ci)
+
+    def after_poke(self, ci):
+        # the reference snapshot is taken after the board has placed this tick's word (which may land in a privileged-only page
+        # when the PC has wandered there) and before anything executes
+        self.user_pre = priv_snapshot(self.cores[ci].arm, self.case.get('privonly', ()))
 
 
 class UserMonitor:
